@@ -130,9 +130,20 @@ FullFails(e) ==
       \* the search gave up by itself (the clock never expired) after it had entered its second iteration: what it handed
       \* over last is its choice with all the time in the world, and a choice that walks into a mate in one although a safe
       \* move exists is not excused by the iteration never having been finished
-      (IF e.tag = "mate" /\ Has(e, "ended") /\ e.ended /\ e.last_depth >= 2 /\ mate1 = {} /\ safe # {}
+      \* (entered its second iteration: a line of depth >= 2, or - for a search that never accepts anything again after
+      \* iteration 1 - at least three times as many clock queries in total as iteration 1 had needed)
+      (IF e.tag = "mate" /\ Has(e, "ended") /\ e.ended /\ mate1 = {} /\ safe # {}
+          /\ (e.last_depth >= 2 \/ (l1 # 0 /\ Has(e, "queries") /\ e.queries > 3 * e.infos[l1].q + 10))
           /\ e.final_txt \notin {MoveText(m) : m \in safe \cup drawn}
-       THEN {<<"C11", "gives-up-and-walks-into-mate", D(<<e.cmd, e.final_txt>>)>>} ELSE {}))
+       THEN {<<"C11", "gives-up-and-walks-into-mate", D(<<e.cmd, e.final_txt>>)>>} ELSE {})
+      \cup
+      \* a search that was given a thousand times the clock queries its first iteration took and has still not reported anything
+      \* of its second one has finished that iteration long ago without taking anything from it: the move it sits on must
+      \* not walk into a mate in one when a safe move exists
+      (IF e.tag = "mate" /\ Has(e, "queries") /\ l1 # 0 /\ e.last_depth = 1
+          /\ e.queries > 1000 * e.infos[l1].q + 20000 /\ mate1 = {} /\ safe # {}
+          /\ e.final_txt \notin {MoveText(m) : m \in safe \cup drawn}
+       THEN {<<"C11", "sits-on-a-move-that-walks-into-mate", D(<<e.cmd, e.final_txt>>)>>} ELSE {}))
   \cup MateClaimFails(root, e.infos, hasHistory)
   \* (C11, stalemate never scored as mate: a stalemating move announced as `mate 1` fails MateWithin above; the scenario
   \* generator supplies positions with a stalemating move one ply away)
